@@ -1015,6 +1015,13 @@ func (f *Frame) step(in ssa.Instruction) {
 	case *ssa.Extract:
 		if t, ok := f.val(x.Tuple).(ATuple); ok && x.Index < len(t) {
 			f.set(x, t[x.Index])
+		} else if sel, isSel := x.Tuple.(*ssa.Select); isSel && x.Index == 0 {
+			// the index of the chosen case: 0..n-1, or -1 for the default of a non-blocking select
+			lo := int64(0)
+			if !sel.Blocking {
+				lo = -1
+			}
+			f.set(x, AInt{a: affSym(f.an.u.sym(f.key+x.Name(), lo, int64(len(sel.States))-1))})
 		} else {
 			f.set(x, f.an.u.symbolic(f.key+x.Name(), x.Type()))
 		}
